@@ -895,8 +895,12 @@ class Curve(BaseCurve):
         ControlPoints = [1, 1.5, -0.5, -3]
 
         """
-        self.degree_clean(tolerance=tolerance)
-        self.knot_clean(tolerance=tolerance)
+        while True:  # a removed knot may make a lower degree reachable and vice versa
+            degree, npts = self.degree, self.npts
+            self.degree_clean(tolerance=tolerance)
+            self.knot_clean(tolerance=tolerance)
+            if (degree, npts) == (self.degree, self.npts):
+                break
         if self.weights is None:
             return
         # Try to reduce to spline
